@@ -80,6 +80,18 @@ func checkC08(tier string) int {
 		}
 	}
 	runMicros(rep, specs, secs, false)
+	// E2 (two deviations at shared points, completed): the last consumer of an ephemeral
+	// channel leaves while a new one subscribes - the asynchronous auto-delete in between
+	var especs []nsqd.MicroSpec
+	for _, st := range []string{"none", "inflight"} {
+		especs = append(especs, nsqd.MicroSpec{State: st, Eph: true, Solo: true, MemQ: 10, Ops: []string{"disc1", "sub3"}})
+	}
+	if tier == "thorough" {
+		especs = append(especs, nsqd.MicroSpec{State: "none", Eph: true, MemQ: 10, Ops: []string{"disc1", "disc2", "sub3"}},
+			nsqd.MicroSpec{State: "queued", Eph: true, Solo: true, MemQ: 0, Ops: []string{"disc1", "sub3"}})
+	}
+	runMicrosDelay(rep, especs, 150, 2, false)
+	rep.Rule += "; E2: every schedule with <= 2 deviations at shared points for last-consumer-leaves vs new-subscriber on an ephemeral channel"
 	return rep.Finish()
 }
 
